@@ -41,7 +41,7 @@ We can check the Eckmann-Hilton argument, up to interchanger.
 
 from discopy import cat, messages, drawing, rewriting
 from discopy import _verif
-from discopy.cat import Ob
+from discopy.cat import Ob, AxiomError
 
 
 class Ty(Ob):
@@ -346,6 +346,10 @@ class Diagram(cat.Arrow):
                     raise TypeError(messages.type_err(Diagram, box))
                 if not isinstance(off, int):
                     raise TypeError(messages.type_err(int, off))
+                scan = layers.cod if layers else dom
+                if not 0 <= off <= len(scan) - len(box.dom):
+                    raise AxiomError(
+                        "Box {} does not fit at offset {}.".format(box, off))
                 left = layers.cod[:off] if layers else dom[:off]
                 right = layers.cod[off + len(box.dom):]\
                     if layers else dom[off + len(box.dom):]
